@@ -97,7 +97,7 @@ class PythonConstructRenderer:
             writer.write_line(f"class {alias_name}Discriminator:")
             writer.write_line(f'    """Discriminator metadata for {alias_name} union."""')
             writer.write_line("")
-            writer.write_line(f'    property_name: str = "{discriminator.property_name}"')
+            writer.write_line(f"    property_name: str = {json.dumps(discriminator.property_name, ensure_ascii=False)}")
             writer.write_line(f'    """The discriminator property name"""')
             writer.write_line("")
 
@@ -108,7 +108,9 @@ class PythonConstructRenderer:
                 writer.write_line("    _mapping_data: tuple[tuple[str, str], ...] = (")
                 for disc_value, schema_ref in discriminator.mapping.items():
                     schema_name = schema_ref.split("/")[-1]
-                    writer.write_line(f'        ("{disc_value}", "{schema_name}"),')
+                    writer.write_line(
+                        f"        ({json.dumps(disc_value, ensure_ascii=False)}, {json.dumps(schema_name, ensure_ascii=False)}),"
+                    )
                 writer.write_line("    )")
                 writer.write_line("")
                 writer.write_line("    def get_mapping(self) -> dict[str, type]:")
@@ -121,7 +123,7 @@ class PythonConstructRenderer:
                 writer.write_line("        return {")
                 for disc_value, schema_ref in discriminator.mapping.items():
                     schema_name = schema_ref.split("/")[-1]
-                    writer.write_line(f'            "{disc_value}": {schema_name},')
+                    writer.write_line(f"            {json.dumps(disc_value, ensure_ascii=False)}: {schema_name},")
                 writer.write_line("        }")
             else:
                 writer.write_line("    _mapping_data: tuple[tuple[str, str], ...] | None = None")
